@@ -168,11 +168,13 @@ func (g *verifRGen) op(rt *rapid.T, label string, client int, nested bool, hot i
 			if rapid.IntRange(0, 3).Draw(rt, label+".cleanws") > 0 {
 				op.Working, op.Staged = op.Value, op.Value
 			}
+			g.keepWS(rt, label, op, client, op.WS)
 		}
 	case verifRUpdateWS:
 		op.ID = g.wss[bi]
 		op.Fresh = rapid.IntRange(0, 9).Draw(rt, label+".fresh") < 4
 		g.drawSpec(rt, label, op)
+		g.keepWS(rt, label, op, client, op.ID)
 	case verifRFF, verifRSetHead:
 		op.ID = g.branches[bi]
 		op.Fresh = rapid.IntRange(0, 9).Draw(rt, label+".fresh") < 5
@@ -227,4 +229,16 @@ func (g *verifRGen) drawSpec(rt *rapid.T, label string, op *verifROp) {
 	}
 	op.Meta = rapid.IntRange(0, g.metaMax).Draw(rt, label+".meta")
 	op.PrevEmpty = rapid.IntRange(0, 9).Draw(rt, label+".prevEmpty") == 0
+	// a caller that keeps its dataset handles but re-reads the working set's address
+	op.PrevFresh = !op.PrevEmpty && rapid.IntRange(0, 9).Draw(rt, label+".prevReread") < 3
+}
+
+// keepWS: part of the time the working set written is the one the caller's handle shows (a
+// commit that leaves the working set as the caller found it), so working-set values recur.
+func (g *verifRGen) keepWS(rt *rapid.T, label string, op *verifROp, client int, wsID string) {
+	cur := g.h.m.clients[client].snap[wsID]
+	if cur == "" || !verifRIsWSSym(cur) || rapid.IntRange(0, 9).Draw(rt, label+".keepWS") >= 3 {
+		return
+	}
+	op.Working, op.Staged, op.Meta = verifRWSParts(cur)
 }
